@@ -25,6 +25,15 @@ bool splinetable<Alloc>::searchcenters(const double* x, int* centers) const
 			continue;
 		} else if (x[i] >= knots[i][naxes[i]]) {
 			centers[i] = naxes[i]-1;
+			/*
+			 * Exactly at the end of the fully supported range the limit
+			 * from the left is wanted; if that knot is repeated, step back
+			 * to the last interval of non-zero width.
+			 */
+			if (x[i] == knots[i][naxes[i]])
+				while (centers[i] > int(order[i]) &&
+				       knots[i][centers[i]] == knots[i][centers[i]+1])
+					centers[i]--;
 			continue;
 		}
 		
